@@ -1097,8 +1097,13 @@ impl Serialize for Value {
                 seq.end()
             }
             ValueInner::Map(map) => {
+                let mut key_val: Box<_> = map.iter().collect();
+                // Keys are sorted to have deterministic output if preserve_order is not used
+                if cfg!(not(feature = "preserve_order")) {
+                    key_val.sort_by_key(|elem| elem.0);
+                }
                 let mut m = serializer.serialize_map(Some(map.len()))?;
-                for (key, val) in map.iter() {
+                for (key, val) in key_val.iter() {
                     m.serialize_entry(key, val)?;
                 }
                 m.end()
